@@ -233,6 +233,46 @@ func progs() []prog {
 				_ = *mc.R(x, 0)
 			}, Observe: obs(func() string { return "" })}
 		}},
+		{name: "condition variable: consumer waits for producer (no lost wake-up)", outcomes: 1, sc: func() explore.Exec {
+			got := 0
+			return explore.Exec{Body: func() {
+				var mu mc.Mutex
+				cond := mc.NewCond(&mu)
+				ready := false
+				mc.Go(func() {
+					mu.Lock()
+					ready = true
+					mu.Unlock()
+					cond.Signal()
+				})
+				mu.Lock()
+				for !ready {
+					cond.Wait()
+				}
+				got = 1
+				mu.Unlock()
+			}, Observe: obs(func() string { return fmt.Sprint(got) })}
+		}},
+		{name: "condition variable: signal before the predicate is set (if instead of for) can hang", outcomes: 2, deadlock: true, sc: func() explore.Exec {
+			got := 0
+			return explore.Exec{Body: func() {
+				var mu mc.Mutex
+				cond := mc.NewCond(&mu)
+				mc.Go(func() { cond.Signal() })
+				mu.Lock()
+				cond.Wait() // no predicate: a Signal that came first is lost
+				got = 1
+				mu.Unlock()
+			}, Observe: obs(func() string { return fmt.Sprint(got) })}
+		}},
+		{name: "len(ch) observes the buffer (racing a sender)", outcomes: 2, sc: func() explore.Exec {
+			n := -1
+			return explore.Exec{Body: func() {
+				c := make(chan int, 1)
+				mc.Go(func() { mc.Send(c, 7) })
+				n = mc.Len(c)
+			}, Observe: obs(func() string { return fmt.Sprint(n) })}
+		}},
 	}
 }
 
